@@ -35,6 +35,21 @@ def _has_fact(facts, patt: str, pol: bool, binds=None) -> bool:
     return False
 
 
+def _unaliased(ctx, fn, node):
+    """a copy of the statement / expression with every plain local that is a single-assignment alias of an attribute / subscript chain replaced by that chain"""
+    import copy
+    from sa.util import unalias
+
+    class T(ast.NodeTransformer):
+        def visit_Name(self, n):
+            if isinstance(n.ctx, ast.Load):
+                e = unalias(ctx, fn, n)
+                if e is not n:
+                    return copy.deepcopy(e)
+            return n
+    return T().visit(copy.deepcopy(node))
+
+
 class C11:
     def __init__(self, ctx: Ctx, rep: Report):
         self.ctx, self.rep = ctx, rep
@@ -240,6 +255,9 @@ class C11:
             for n in ctx.own_nodes(fn):
                 if isinstance(n, (ast.Assign, ast.Expr, ast.Call)):
                     m = pat.match(construct, n.value if isinstance(n, ast.Expr) else n)
+                    if m is None and isinstance(n, (ast.Assign, ast.Expr)):
+                        # a hoisted alias of the slot (`path_ents = self._paths[side][path]`) stands for the slot
+                        m = pat.match(construct, _unaliased(ctx, fn, n.value if isinstance(n, ast.Expr) else n))
                     if m is not None and not (isinstance(n, ast.Call) and any(isinstance(pn, ast.Expr) and pn.value is n for pn in ctx.own_nodes(fn))):
                         hits.append((n, m))
             key = "%s|%s" % (fn.name, construct)
@@ -360,3 +378,8 @@ def run(ctx: Ctx, rep: Report, tier: str):
     from rules.common import change_oid_cleans_the_popped_entrys_slot
     rep.rule("C11.X12", "_change_oid cleans the (path, id) slot of the entry it popped from the id index, with that entry's path", 1)
     section(rep, lambda: change_oid_cleans_the_popped_entrys_slot(ctx, rep, "C11.X12"))
+    from rules.decisions import decision_table, table_sites
+    rep.rule("C11.DT", "decision table (rules/decisions.json) of the index maintenance of SyncState (_change_oid, _change_path, update_entry, look-ups, get_kids): for every function and every action shape (an impure call with the parameters it passes, a store to an "
+             "attribute or item, a delete, a returned constant, a yield, a raise) the set of states - over the function's guard atoms - in which the action is taken "
+             "equals the recorded one; compared as canonical decision diagrams, so any equivalent respelling of the guards is the same table", table_sites("C11"))
+    section(rep, lambda: decision_table(ctx, rep, "C11.DT", "C11"))
